@@ -19,6 +19,7 @@ pub trait Flt:
     fn of(v: f64) -> Self;
     fn f(self) -> f64;
     fn key(self) -> u64;
+    fn from_key(k: u64) -> Self;
     fn up(self) -> Self;
     fn down(self) -> Self;
 }
@@ -37,6 +38,9 @@ impl Flt for f64 {
     }
     fn key(self) -> u64 {
         self.to_bits()
+    }
+    fn from_key(k: u64) -> Self {
+        f64::from_bits(k)
     }
     fn up(self) -> Self {
         self.next_up()
@@ -60,6 +64,9 @@ impl Flt for f32 {
     }
     fn key(self) -> u64 {
         self.to_bits() as u64
+    }
+    fn from_key(k: u64) -> Self {
+        f32::from_bits(k as u32)
     }
     fn up(self) -> Self {
         self.next_up()
